@@ -177,6 +177,21 @@ def run_case(route, shape, bpv, bs, d, idx):
                 if not bits_equal(got, sl):
                     R.violation('oracle', inp, f'{name}({k}) differs from the ZFP image of the edge-extended source although read_volume() agrees')
                     break
+    # O1b: the re-layout route (2-bit default-layout files can be re-blocked to 64x64x4): read-back is the same image
+    if rate == 2 and tuple(sp.bs) == (4, 4, 1024):
+        q = p + '.adv.sgz'
+        try:
+            with SgzConverter(p) as c:
+                quiet(c.convert_to_adv_sgz, q)
+            with SgzReader(q) as r:
+                if not bits_equal(r.read_volume(), want):
+                    R.violation('oracle', dict(inp, then='convert_to_adv_sgz'), 'read_volume of the re-blocked file differs from the ZFP image of the edge-extended source')
+            R.count('route:then re-blocked')
+        except Exception as e:
+            R.violation('oracle', dict(inp, then='convert_to_adv_sgz'), f're-blocking a valid 2-bit default-layout file raised {type(e).__name__}: {e}')
+        finally:
+            if os.path.exists(q):
+                os.remove(q)
     # O2
     if os.path.getsize(p) != sp.expected_length():
         R.violation('oracle', inp, f'file length {os.path.getsize(p)} != {sp.expected_length()} derived from the header')
@@ -211,6 +226,10 @@ def main():
         for k in range(2 if not thorough else 6):
             idx += 1
             run_case('segy-min-ext', (rng.choice([3, 5, 6]), rng.choice([4, 7, 9]), rng.choice([9, 17])), 8, (4, 4, 256), d, idx)
+        # 2-bit cubes whose line counts fall just below / at / above a multiple of 64 (the re-layout route's partial blocks)
+        for sh in ([(62, 5, 9), (5, 63, 6), (65, 61, 5)] if not thorough else [(61, 5, 9), (62, 6, 5), (63, 5, 6), (64, 4, 5), (65, 5, 5), (5, 61, 9), (6, 63, 5), (126, 5, 5), (5, 127, 6)]):
+            idx += 1
+            run_case('numpy', sh, 2, (4, 4, -1), d, idx)
         # ---------------- correspondence with the generated model
         if not a.no_model and cases:
             terms = []
